@@ -220,7 +220,10 @@ CONTRACTS = [
                      'no_color': T.bool},
              requires=_MAKE_REQ,
              ensures={'fields': f"(self._color_prefix, self._color_suffix) == shape(codes({_ARGS}))"},
-             raises={'invalid': ((ValueError,), "not no_color and not (ok_color(color) and ok_color(bg_color))")}),
+             raises={'invalid': ((ValueError,), "not no_color and not (ok_color(color) and ok_color(bg_color))")},
+             modifies=['self._color_prefix', 'self._color_suffix'],
+             havoc={'self._color_prefix': T.str, 'self._color_suffix': T.str}, result_spec=T.none,
+             call_raises=[(ValueError, "not no_color and not (ok_color(color) and ok_color(bg_color))")]),
     Contract(M, 'ColorFmt.__call__', prop=PROP, spec_globals=G, level='top',
              params={'self': T.obj('ak.color:ColorFmt', _color_prefix=T.str, _color_suffix=T.str), 'text': T.str},
              ensures={'chunk': "result.c_prefix == self._color_prefix and result.text == text "
